@@ -195,6 +195,6 @@ def run_shard(spec) -> Acc:
 
 
 def plan(tier, seed):
-    n = 150 if tier == "quick" else 4000
+    n = 300 if tier == "quick" else 4000
     return ([{"part": "parse", "shard": i, "n": n} for i in range(10)]
             + [{"part": "bytes", "shard": 100 + i, "n": n * 2} for i in range(6)])
